@@ -26,10 +26,10 @@ CLAIMED.update({
 CLAIMED.update({
  'C10': dict(cat='proof', technique='SMT / exact-polynomial verification conditions over the reals generated from the extracted code, libm as uninterpreted functions with ground axiom instances (z3/cvc5/polyid portfolio); Eigen/Geometry (AngleAxis, quaternion product, toRotationMatrix, normalized) by assumed contracts',
    text='Normalisers (range and congruence mod 2*pi for |val| < 4*pi), planar angle<->matrix pair (both directions), rotation3DToEulerAngles applied to Rz*Ry*Rx returns the angles mod 2*pi (|pitch| < pi/2), SmartRotation3D::R equals Rz*Ry*Rx entry by entry, is orthonormal with determinant 1; eulerAnglesToQuaternion gives a unit quaternion and eulerAnglesToRotation3D equals Rz*Ry*Rx (the builders agree), quaternionToEulerAngles is invariant under scaling of the quaternion (unit or non-unit); polar and spherical <-> Cartesian round trips: each an unbounded statement over all real inputs, one discharged query per clause.',
-   note=TB_B + '; Eigen/Geometry operations enter by assumed contracts (specs/C10/meta.json); NOT covered: general R->angles->R, rigid_transformation3, float narrowing', ref='DESIGN.md 4 (C10), 9'),
+   note=TB_B + '; Eigen/Geometry operations enter by assumed contracts (specs/C10/meta.json); rotation -> angles -> rotation is proved for every proper rotation matrix with |R20| <= 1 - 1e-6; NOT covered: rigid_transformation3, float narrowing', ref='DESIGN.md 4 (C10), 9'),
  'C12': dict(cat='proof', technique='SMT / exact-polynomial verification conditions: extracted derivative matrices and the extracted 6x6 pose Jacobian against formal derivatives (symalg) of the code\'s own rotation and pose map',
    text='All 27 entries of dR/droll, dR/dpitch, dR/dyaw against the formal derivative of the reported R (= Rz*Ry*Rx, proved): 17 discharged, 10 refuted = known findings pinned by the existing tests; dRTdAngles(T) = (dR/da)*T. operator*(Affine3d, Pose3D): covariance\' = J cov J^T for the code\'s J (proved), and all 36 entries of J against the Jacobian of the library\'s own pose map: 19 discharged (zero blocks, d roll/d roll, one sign), 17 entries (19 obligations) refuted = known findings with native failing inputs.',
-   note=TB_B + '; tools/polyid.py (sympy) as fourth portfolio member; NOT covered: LeastSquares::computeEstimateCovariance (dynamic-size Eigen, see specs/C12/meta.json)', ref='DESIGN.md 4 (C12), 9'),
+   note=TB_B + '; tools/polyid.py (sympy) as fourth portfolio member; the least-squares covariance clause is a BOUNDED stand-in (11 obligations labelled bounded, not counted as proved; see specs/C12/meta.json)', ref='DESIGN.md 4 (C12), 9'),
  'C01': dict(cat='proof', technique='SMT verification conditions over the reals generated from the extracted code; fixed-point loop summarised (partial correctness); lemma + generalisation steps',
    text='Forward map proved to be foot point + h * unit normal with the foot point on the ellipsoid and the ellipsoid normal parallel to (cos lat cos lon, cos lat sin lon, sin lat); inverse on the image of the forward map: longitude recovered exactly, the true latitude is a fixed point of the iteration map, height recovered at the fixed point, latitude in (-pi/2, pi/2), longitude in (-pi, pi], all divisions / square roots defined.',
    note=TB_B + '; tolerances (1e-9 rad, 1 mm), rounding, loop termination and uniqueness of the fixed point are not decided (exact arithmetic, partial correctness)', ref='DESIGN.md 4 (C01)'),
@@ -45,7 +45,7 @@ CLAIMED.update({
    note=TB_B + '; ' + TB_A + '; point sets of 1..32 finite points in the C model (property: up to 1000); mean is a floating accumulation (expression only)', ref='DESIGN.md 4 (C20)'),
  'C11': dict(cat='proof', technique='CBMC code contracts (bit-precise copies) + SMT verification conditions (quadratic forms, SE(3) action on extracted operator*, uncertainty ellipse under an assumed JacobiSVD contract)',
    text='Reductions keep exactly x, y, yaw / vx, vy, yaw rate and rows/columns (0,1,5) of the covariance for every double (NaN included); embed-then-reduce is the identity and symmetry is kept; the quadratic forms of reduced/embedded covariances agree (so PSD is preserved); the rigid transform of a pose acts as R p + T on the position, the identity is neutral for position and attitude (as a rotation), successive transforms compose on the position; the uncertainty ellipse has major >= minor >= 0 and R diag(major^2, minor^2) R^T / sigma^2 reproduces the xy covariance (given the SVD contract).',
-   note=TB_A + '; ' + TB_B + '; Eigen::JacobiSVD of the 2x2 covariance enters by an assumed contract (C = U diag(s) U^T, U orthonormal, s0 >= s1 >= 0 for symmetric PSD C); NOT covered: composition of the attitude part (needs R(angles(M)) = M)', ref='DESIGN.md 4 (C11), 9'),
+   note=TB_A + '; ' + TB_B + '; Eigen::JacobiSVD of the 2x2 covariance enters by an assumed contract (C = U diag(s) U^T, U orthonormal, s0 >= s1 >= 0 for symmetric PSD C); the attitude part of the group action Rz*Ry*Rx(result) = R * Rz*Ry*Rx(orientation) is proved away from gimbal lock; identity-neutrality and composition of the attitude then are associativity of the matrix product (stated)', ref='DESIGN.md 4 (C11), 9'),
 })
 CLAIMED.update({
  'C14': dict(cat='proof', technique='CBMC code contracts with a loop invariant for the chain + SMT verification conditions for the Amanatides-Woo one-step geometric invariant',
